@@ -355,36 +355,33 @@ func conflictErr(res queue.LeaseBatchResult, lease string) error {
 
 func (r *recorder) AckBatch(ids []string) (queue.LeaseBatchResult, error) {
 	res, err := r.batch.AckBatch(ids)
+	if err != nil {
+		return res, err // nothing applied: the dispatcher falls back to per-action mutations, which are recorded there
+	}
 	for _, l := range ids {
-		e := err
-		if e == nil {
-			e = conflictErr(res, l)
-		}
-		r.settle(l, "ack", 0, "", e)
+		r.settle(l, "ack", 0, "", conflictErr(res, l))
 	}
 	return res, err
 }
 
 func (r *recorder) NackBatch(ids []string, delay time.Duration) (queue.LeaseBatchResult, error) {
 	res, err := r.batch.NackBatch(ids, delay)
+	if err != nil {
+		return res, err
+	}
 	for _, l := range ids {
-		e := err
-		if e == nil {
-			e = conflictErr(res, l)
-		}
-		r.settle(l, "nack", delay, "", e)
+		r.settle(l, "nack", delay, "", conflictErr(res, l))
 	}
 	return res, err
 }
 
 func (r *recorder) MarkDeadBatch(ids []string, reason string) (queue.LeaseBatchResult, error) {
 	res, err := r.batch.MarkDeadBatch(ids, reason)
+	if err != nil {
+		return res, err
+	}
 	for _, l := range ids {
-		e := err
-		if e == nil {
-			e = conflictErr(res, l)
-		}
-		r.settle(l, "dead", 0, reason, e)
+		r.settle(l, "dead", 0, reason, conflictErr(res, l))
 	}
 	return res, err
 }
@@ -402,6 +399,22 @@ func (r *recorder) RecordAttempt(a queue.DeliveryAttempt) error {
 
 // noBatch hides the batch extension (store variants without it take the per-action path).
 type noBatch struct{ queue.Store }
+
+// failBatch is a store whose batch extension is out of order (every batch call fails without applying anything)
+// while the per-action mutations work: the dispatcher's per-action fallback has to settle the message.
+type failBatch struct{ queue.Store }
+
+var errBatch = errors.New("c06: batch mutation unavailable")
+
+func (failBatch) AckBatch([]string) (queue.LeaseBatchResult, error) {
+	return queue.LeaseBatchResult{}, errBatch
+}
+func (failBatch) NackBatch([]string, time.Duration) (queue.LeaseBatchResult, error) {
+	return queue.LeaseBatchResult{}, errBatch
+}
+func (failBatch) MarkDeadBatch([]string, string) (queue.LeaseBatchResult, error) {
+	return queue.LeaseBatchResult{}, errBatch
+}
 
 // ---- scripted deliverer -----------------------------------------------------
 
@@ -465,7 +478,7 @@ type Msg struct {
 
 type Spec struct {
 	Part       string  `json:"part"`
-	Store      string  `json:"store"` // memory | memory-noret | memory-nobatch | sqlite | sqlite-noret
+	Store      string  `json:"store"` // memory | memory-noret | memory-nobatch | memory-batchfail | sqlite | sqlite-noret | sqlite-nobatch
 	Targets    []Tgt   `json:"targets"`
 	Conc       int     `json:"conc"`
 	HTTP       bool    `json:"http"` // real HTTPDeliverer over the in-memory transport
@@ -508,20 +521,25 @@ func openStore(kind, dir string) (queue.Store, func(), error) {
 		return queue.NewMemoryStore(queue.WithDeliveredRetention(24 * time.Hour)), func() {}, nil
 	case "memory-noret":
 		return queue.NewMemoryStore(), func() {}, nil
+	case "memory-batchfail":
+		return failBatch{queue.NewMemoryStore(queue.WithDeliveredRetention(24 * time.Hour))}, func() {}, nil
 	case "memory-nobatch":
 		return noBatch{queue.NewMemoryStore(queue.WithDeliveredRetention(24 * time.Hour))}, func() {}, nil
-	case "sqlite", "sqlite-noret":
+	case "sqlite", "sqlite-noret", "sqlite-nobatch":
 		os.RemoveAll(dir)
 		if err := os.MkdirAll(dir, 0o755); err != nil {
 			return nil, nil, err
 		}
 		opts := []queue.SQLiteOption{queue.WithSQLiteCheckpointInterval(0)}
-		if kind == "sqlite" {
+		if kind != "sqlite-noret" {
 			opts = append(opts, queue.WithSQLiteDeliveredRetention(24*time.Hour))
 		}
 		s, err := queue.NewSQLiteStore(filepath.Join(dir, "q.db"), opts...)
 		if err != nil {
 			return nil, nil, err
+		}
+		if kind == "sqlite-nobatch" {
+			return noBatch{s}, func() { s.Close(); os.RemoveAll(dir) }, nil
 		}
 		return s, func() { s.Close(); os.RemoveAll(dir) }, nil
 	}
